@@ -41,6 +41,8 @@ claimed={
          "token parsing, signature recomputation and HMAC/HKDF are stubs (seams); standalone VerifyIDToken not yet covered"),
  "C19": ("Real readWithContext / writeWithContext with a harness context implementing the context package's AfterFunc hook and a connection that completes, fails or stalls until closed, under every cancellation timing: cancelled => returns the context's error with the connection closed (a stalled call is unblocked); never-cancelled or non-cancellable context => exactly the I/O's result.", "5.C19",
          "sequential model of a blocked call (the harness fires the cancellation inside Read/Write); latency, kernel unblock semantics and TLS are outside; context threading through handshakes not yet covered"),
+ "C17": ("Lock-set consistency of the shared state, decided on every path of the real code: every unordered pair of 17 session-cache / session-entry operations (store, three lookups, map, invalidate, expiry sweep, renew, expire test, snapshot, dump, size, clear, accessors) from a cache with entries in arbitrary expiry states accesses each shared field or map under a common mutex (writer holding it exclusively), and an invalidated id is unreachable afterwards; two handshakes built on one shared SecurityConfig touch it read-only and each advertises its own ephemeral key; one send and one receive on an established stream (cleartext or keyed, first protected frames exchanged or not) touch disjoint state. Lock-set violations are confirmed by running the same pair in two goroutines under the race detector.", "5.C17",
+         "lock-set discipline is a sufficient condition for race freedom, checked per pair of operations (Eraser-style, made path-complete by symbolic execution); interleaving-dependent behaviour beyond lock discipline (whole concurrent handshakes against one server, CCB broker writers) is not modelled; ECDH keys modelled as distinct opaque values"),
  "C20": ("Real acceptReversed over up to three arriving connections with arbitrary hellos (command, connect id present/absent/other/unreadable) and a cancelled context; real proxyRequestOnStream against an arbitrary broker reply and hello.", "5.C20",
          "message layer replaced by typed stubs; the goroutine race in dialStandard and the Happy-Eyeballs timers of Dial are outside (no thread model)"),
 }
